@@ -1,10 +1,11 @@
 import DeltaModel.Headers
 /-! Path extraction from `diff --git` lines and the header descriptions. -/
+set_option linter.unusedSimpArgs false
 namespace Headers
 open Generated
 
 theorem parseFilePath_prefixed (p : Str) (x : Str) (hp : p ∈ Markers.diffPrefixes)
-    (hx : (p ++ x).getLast? ≠ some '\t') : parseFilePath (p ++ x) true = .ok x := by
+    (hx : (p ++ x).getLast? ≠ some '\t') : parseFilePath (p ++ x) true = x := by
   have hp2 : p.length = 2 ∧ p.head? ≠ some '"' ∧ p ≠ [] := by
     simp [Markers.diffPrefixes] at hp
     rcases hp with h | h | h | h | h | h <;> subst h <;> simp
@@ -13,7 +14,7 @@ theorem parseFilePath_prefixed (p : Str) (x : Str) (hp : p ∈ Markers.diffPrefi
     cases p with
     | nil => exact absurd rfl hp2.2.2
     | cons c cs => simpa using hp2.2.1
-  simp only [hh, false_and, if_false, bind, Except.bind, pure, Except.pure]
+  simp only [hh, false_and, and_false, if_false]
   simp only [hx, if_false]
   have hdn : p ++ x ≠ Markers.devNull := by
     simp [Markers.diffPrefixes] at hp
@@ -41,7 +42,7 @@ theorem repeated_path (line : Str) (p1 p2 : Str) (X : List Str)
     (hl : startsWith line Markers.diffGit = true)
     (hp1 : p1 ∈ Markers.diffPrefixes) (hp2 : p2 ∈ Markers.diffPrefixes)
     (hx1 : (p1 ++ X.flatten).getLast? ≠ some '\t') (hx2 : (p2 ++ X.flatten).getLast? ≠ some '\t') :
-    repeatedFilePath line (singles p1 ++ X ++ [[' ']] ++ singles p2 ++ X) = .ok (some X.flatten) := by
+    repeatedFilePath line (singles p1 ++ X ++ [[' ']] ++ singles p2 ++ X) = some X.flatten := by
   have l1 : p1.length = 2 := by
     simp [Markers.diffPrefixes] at hp1
     rcases hp1 with h | h | h | h | h | h <;> subst h <;> rfl
@@ -67,8 +68,8 @@ theorem repeated_path (line : Str) (p1 p2 : Str) (X : List Str)
     have : (singles p1 ++ X ++ [[' ']]).length = X.length + 2 + 1 := by simp [l1]; omega
     rw [List.append_assoc (singles p1 ++ X ++ [[' ']])]
     rw [← this, List.drop_left]
-  simp only [if_true, htake, hdrop, List.flatten_append, singles_flatten, bind, Except.bind]
+  simp only [if_true, htake, hdrop, List.flatten_append, singles_flatten]
   rw [parseFilePath_prefixed p1 _ hp1 hx1, parseFilePath_prefixed p2 _ hp2 hx2]
-  simp [pure, Except.pure]
+  simp
 
 end Headers
